@@ -28,7 +28,7 @@ RULE = (
     "have to evaluate effects), plus distinct repeat queries issued after a query that internally hit an undefined fluent or a conflict."
 )
 ASSUMPTIONS = ["a state is observed through get_value on every ground fluent; hidden state not reachable through get_value is not compared"]
-BOUNDS = {"quick": dict(n=500, depth=3, max_states=10, max_inst=30), "thorough": dict(n=6000, depth=4, max_states=24, max_inst=50)}
+BOUNDS = {"quick": dict(n=500, depth=3, max_states=10, max_inst=30), "thorough": dict(n=24000, depth=4, max_states=24, max_inst=50)}
 PROFILE = dict(c01.PROFILE)
 
 
